@@ -80,7 +80,7 @@ impl ClassingConfig {
                 return Request::new(
                     order,
                     Class(config.id),
-                    config.count.to_local(core, cores, pid),
+                    self.count(config.id).to_local(core, cores, pid),
                 );
             }
         }
@@ -89,8 +89,14 @@ impl ClassingConfig {
         Request::new(
             order,
             Class(config.id),
-            config.count.to_local(core, cores, pid),
+            self.count(config.id).to_local(core, cores, pid),
         )
+    }
+
+    /// The number of local slots of a class is defined by its last entry (see `Locals::new`).
+    fn count(&self, id: u8) -> Count {
+        let last = self.classes.iter().rev().find(|c| c.id == id);
+        last.expect("class not configured").count
     }
 }
 
